@@ -724,8 +724,10 @@ class Unit:
         if a.posonlyargs or a.vararg or a.kwonlyargs or a.kwarg or a.defaults or a.kw_defaults:
             raise Reject("%s: parameters other than plain positional ones" % node.name)
         for d in node.decorator_list:
-            if not (isinstance(d, ast.Call) and isinstance(d.func, ast.Name)
-                    and d.func.id == "lru_cache"):
+            if not (isinstance(d, ast.Call) and (
+                    isinstance(d.func, ast.Name) and d.func.id == "lru_cache"
+                    or isinstance(d.func, ast.Attribute) and d.func.attr == "lru_cache"
+                    and isinstance(d.func.value, ast.Name) and d.func.value.id == "functools")):
                 raise Reject("%s: decorator %s" % (node.name, ast.unparse(d)))
         fx = Fn(node.name, spec, prefix)
         fx.top = tuple(node.body)
